@@ -11,6 +11,8 @@ PLAN = dict(
         step("heap-families-a64", "c10-a64", "c10-a64", 0, 0, viol=r"class=heap-invariant"),
         step("heap-rv", "heapgen-rv", "heap-rv", 60, 3000, shards_thorough=12, viol=r"class=heap-invariant"),
         step("heap-families-rv", "c10-rv", "c10-rv", 0, 0, viol=r"class=heap-invariant"),
+        step("heaplock-x86", "codegen-x86", "heaplock-x86", 150, 6000, shards_thorough=12, viol=r"class=heap-lockstep"),
+        step("heaplock-families-x86", "c10-x86", "heaplock-x86", 0, 0, viol=r"class=heap-lockstep"),
     ],
     rule="(1) every program of the corpus (examples, testsuite, corpus/fun, corpus/c10) compiled by the real pipeline; the REAL x86-64 code is "
          "executed on the ISA model for 4 argument tuples (3 iteration counts for the loop families) in lockstep with the AxCut machine; at every "
@@ -34,21 +36,36 @@ PLAN = dict(
          "print statements are removed from the linear program; programs beyond 14 live variables are SKIPped (the code generator panics). "
          "Tags: spillreuse (AArch64: acquire_block INTO A SPILL SLOT executed while the reuse list has a second element) / reuse (RISC-V), "
          "deferred (non-empty deferred list at a boundary), spills, liveN, markedN (verdicts from the marked model code; 0 so far: indirect "
-         "branches land on the statement marks in front of their target, so the lockstep is exact)",
+         "branches land on the statement marks in front of their target, so the lockstep is exact). "
+         "(4) heaplock-x86 / heaplock-families-x86: the heap-instrumented AxCut machine of Sem/AxHeap.v (the machine the program-level theorems "
+         "are about) in lockstep with the REAL x86-64 code on the ISA model, for every linearity-checked corpus program and the loop families, 4 "
+         "argument tuples: at every statement boundary (the implementation's own statement comments) the HEAP/FREE registers, the first "
+         "temporary of every non-integer variable, and header + pointer slots of every block below the abstract frontier must equal the "
+         "instrumented configuration about to execute that statement, and nothing may be written at or above the frontier (all blocks at the "
+         "first 256 boundaries, every 64th afterwards, and the last). Tags: boundaries (log2), operations (log2)",
     explanation="theorems (abstract allocator Model/Heap.v, Proof/HeapMore.v, Proof/HeapTrace.v): the counting invariant and its strengthening InvA "
                 "(exact partition of the blocks below the frontier, non-negative counts, acyclic slots) hold initially and are preserved by share, "
                 "erase, acquire (3 cases), single-block and chained-object allocation, destructive and non-destructive load of single-block and "
-                "chained objects, hence by every operation trace whose preconditions hold (example trace given); derived: classification of every "
-                "block below the frontier, no leak, no use after release, no double release. Refinement theorems to the x86-64 code on the ISA "
-                "semantics for share_block_n, erase_block, release_block and acquire_block (all three cases) (Proof/X86Mem.v). Link to programs: execution of the implementation's code with the "
-                "invariant checked at every boundary (x86-64, AArch64, RISC-V); link of the other operations' code to the abstract model: heapops-x86",
-    assumptions=["Model/Heap.v abstracts memory.rs block-granularly; share_block_n, erase_block, release_block and acquire_block are proved to refine it on the ISA model, "
-                 "store/load are tied to it by the operation-level correspondence heapops-x86, not by proof",
-                 "the trace theorem takes the well-formedness of loaded objects (continuation blocks with header 0, non-null links) as a precondition; "
-                 "its derivation from typing of AxCut programs is not proved",
+                "chained objects, hence by every operation trace whose preconditions hold; derived: classification of every block below the "
+                "frontier, no leak, no use after release, no double release. PROGRAMS (Sem/AxHeap.v, Proof/AxHeap*.v, Proof/HeapRep*.v): the linear "
+                "AxCut machine instrumented with the abstract heap (each step emits the erase/share/alloc_object/load_object operations of the "
+                "statement's code, pointers of loaded fields come from the heap) observes what exec_linear observes; for every lin_check'd program "
+                "whose entry takes integers, every reachable configuration satisfies InvA with roots = the non-null pointers of the environment = "
+                "the non-ext variables of the statement's typing context, every value is represented at its pointer, chains are owned (continuation "
+                "blocks have header 0), and every emitted operation satisfies its precondition - C09_program_heap_safe: the operation trace of every "
+                "run satisfies pre_trace, so no-use-after-release, no-double-release, classification/no-leak hold in every reachable configuration "
+                "of every program. x86-64 refinement theorems on the ISA semantics for share_block_n, erase_block, release_block, acquire_block (3 "
+                "cases) and now store (let/create) and load (switch/invoke) for any number of fields (block chains), registers and spill slots, "
+                "both load modes (Proof/X86Mem*.v). Link still checked rather than proved: that a statement's real code performs exactly the listed "
+                "operations (heaplock-x86 lockstep at every boundary); heapops-x86 and heap-x86 as before",
+    assumptions=["Model/Heap.v abstracts memory.rs block-granularly; share_block_n, erase_block, release_block, acquire_block, store and load are proved to refine it "
+                 "on the x86-64 ISA model under hypotheses (operands are blocks of the heap region, counts do not wrap) that are not yet derived from the invariant",
+                 "Sem/AxHeap.v lists, per statement, the allocator operations of the generated code; that the real code performs exactly these is "
+                 "checked in lockstep (heaplock-x86), not proved (no simulation of code_statement)",
+                 "program-level theorems assume lin_check_prog (C05 proves it of the linearizer's output for prog_ok input) and an entry point taking integers",
                  "Sem/X86Sem.v, Sem/A64Sem.v, Sem/RVSem.v, Sem/AxSem.v, Sem/HeapCheck.v",
-                 "on RISC-V the entry state (X2 = heap base, X3 = one block further) and the 64-bit reading of LW/SW are those of C08"],
-    trusted=["coq/Sem/HeapCheck.v (executable invariant)", "coq/Sem/X86Sem.v", "coq/Sem/A64Sem.v", "coq/Sem/RVSem.v",
-             "coq/Sem/AxSem.v + Sem/AxTrace.v (roots via lockstep)", "coq/Sem/HeapLock.v, Sem/X86Heap.v, Sem/A64Heap.v, Sem/RVHeap.v (lockstep runners)",
-             "coq/Model/RunHeapOps.v (lockstep driver of heapops-x86), harness/src/cmd_heapops.rs (generator)"],
+                 "AArch64 / RISC-V allocator code: covered by execution with the invariant at every boundary (steps heap-a64, heap-rv and families), no refinement proof; on RISC-V the entry state (X2 = heap base, X3 = one block further) and the 64-bit reading of LW/SW are those of C08"],
+    trusted=["coq/Sem/HeapCheck.v (executable invariant)", "coq/Sem/X86Sem.v", "coq/Sem/A64Sem.v", "coq/Sem/RVSem.v", "coq/Sem/HeapLock.v, Sem/X86Heap.v, Sem/A64Heap.v, Sem/RVHeap.v (lockstep runners)", "coq/Sem/AxSem.v + Sem/AxTrace.v (roots via lockstep)",
+             "coq/Model/RunHeapOps.v (lockstep driver of heapops-x86), harness/src/cmd_heapops.rs (generator)",
+             "coq/Sem/X86HeapLock.v + coq/Model/RunHeapLock.v (lockstep driver of heaplock-x86)"],
 )
